@@ -912,6 +912,19 @@ Definition label_subst (host nstr : bytes) : res (option bytes) :=
     do l <- idx labels (Z.to_nat (n - 1)); Ok (Some l)
   end.
 
+(* SPECIFICATION of {labelN} (no checked indexing, no reference to label_subst): the N-th
+   dot-separated piece of the Host AS SENT (port, brackets and all), the empty value when N is
+   not a number in 1..number of pieces *)
+Definition label_spec (host nstr : bytes) : option bytes :=
+  let pieces := split 46 host in
+  match atoi nstr with
+  | Some n => if (1 <=? n)%Z && (n <=? Z.of_nat (length pieces))%Z
+              then Some (nth (Z.to_nat (n - 1)) pieces []) else None
+  | None => None
+  end.
+Definition obytes_beq (a b : option bytes) : bool :=
+  match a, b with Some x, Some y => beq x y | None, None => true | _, _ => false end.
+
 (* ------------------------------------------------------------------------------------------ *)
 (* proxy.go createUpstreamRequest: X-Forwarded-For folding                                      *)
 (* ------------------------------------------------------------------------------------------ *)
@@ -1232,7 +1245,8 @@ Definition judge (c : case) : N :=
                    | Ok None => negb op && match obs with None => true | Some _ => false end
                    | Ok (Some l) => negb op && match obs with Some o => beq l o | None => false end
                    end in
-      verdict agree (negb op)
+      (* no panic, and the value is the N-th dot-separated piece of the Host as the peer sent it *)
+      verdict agree (negb op && obytes_beq obs (label_spec host nstr))
   | CXff prior ip op obs =>
       verdict (negb op && beq (xff_fold prior ip) obs) (negb op && beq (last_elem obs) ip)
   | CSeq evs obs direct op =>
